@@ -207,7 +207,7 @@ func c17Features(dom *html.Node) (nodes int, feats []string) {
 
 func TestC17(t *testing.T) {
 	runWitnesses(t, "C17")
-	runProp(t, "tree", 10000, 1000000, func(t *rapid.T) {
+	runProp(t, "tree", 100000, 1000000, func(t *rapid.T) {
 		c := &c17Case{Text: genSoup(t)}
 		st.Eval(1)
 		if dom, err := html.Parse(strings.NewReader(c.Text)); err == nil {
